@@ -219,3 +219,25 @@ ADDED7 = {
 for _pid, _extra in ADDED7.items():
     t, text, note, ref = CLAIMED[_pid]
     CLAIMED[_pid] = (t, text + _extra, note, ref)
+
+ADDED8 = {
+ "C01": " Round 8: every lookup of a name in a scope's table is a comma-ok lookup (a binding to nil is a binding); the apply builtin passes on leading arguments and spread sequence on every path (a part is left out only where it is known to be empty).",
+ "C02": " Round 8: no registered builtin (nor a function or closure it is built from) calls Set/SetNT/Update/Remove on an environment.",
+ "C04": " Round 8: a method of reflect.Type called on reflect.TypeOf(x) requires x to be known non-nil.",
+ "C06": " Round 8: among the reader's parsing functions only the atom reader returns basic values it decoded; a string case computed by anything but one pass through the table is a violation (not an undecided).",
+ "C07": " Round 8: the scope-lock rules of C11 adopted (own mutex per scope, no re-entry, child-before-parent, paired): an evaluation waiting for a lock cannot be cancelled.",
+ "C08": " Round 8: no builtin creates at run time a types.Func whose body applies a captured lisp closure.",
+ "C09": " Round 8: the version counter is a 64-bit integer.",
+ "C10": " Round 8: the context rule covers every evaluation the library starts (a deref inside a finally body waits under the containing evaluation's context).",
+ "C11": " Round 8: C09.version and C09.guard adopted too.",
+ "C12": " Round 8: SetMacro writes nothing but the flag of its copy, GetMacro answers with that flag on every return; no error of the quasiquote transform is decided by comparing a template element with nil.",
+ "C13": " Round 8: apply-args (as C01); the functions a builtin's result comes from return their collection argument unchanged only where another argument is known to be empty; in get-in/assoc-in/update-in the empty default branch is selected by a nil test of the looked-up value.",
+ "C15": " Round 8: no string constant containing a line break is part of the printer's output; every value a placeholder can read as comes from the value table.",
+ "C16": " Round 8: reading assigns no package-level variable; the REPL's decision to keep reading depends on nothing but the classifier (no character counts).",
+ "C17": " Round 8: every error return of a failing builtin call in the application region is NewLispError(err, form).",
+ "C19": " Round 8: the L-notation constructors write only storage they allocated.",
+ "C20": " Round 8: NewLispError returns the object it was given (C03.object adopted as C20.error-result).",
+}
+for _pid, _extra in ADDED8.items():
+    t, text, note, ref = CLAIMED[_pid]
+    CLAIMED[_pid] = (t, text + _extra, note, ref)
